@@ -110,7 +110,10 @@ type histStats struct {
 // workerHist enumerates positions [start, end) of one shard (position p = history number shard + p*nshards in
 // the lexicographic enumeration of set^depth).  It stops at the first history with a mismatch: from then on the
 // process may be contaminated, so the parent confirms/minimises in fresh processes and restarts the shard after it.
-func workerHist(depth, shard, nshards, start, end int, set []Spec, base map[string]string, deadline time.Time, w *bufio.Writer) {
+func workerHist(depth, shard, nshards, start, end int, set []Spec, explicit [][]Spec, scheds []string, base map[string]string, deadline time.Time, w *bufio.Writer) {
+	if len(scheds) == 0 {
+		scheds = schedules
+	}
 	var st histStats
 	enc := json.NewEncoder(w)
 	idx := make([]int, depth)
@@ -118,6 +121,9 @@ func workerHist(depth, shard, nshards, start, end int, set []Spec, base map[stri
 	total := 1
 	for i := 0; i < depth; i++ {
 		total *= n
+	}
+	if explicit != nil {
+		total = len(explicit)
 	}
 	specs := make([]Spec, depth)
 	pos := start
@@ -132,15 +138,20 @@ func workerHist(depth, shard, nshards, start, end int, set []Spec, base map[stri
 			st.Done = false
 			break
 		}
-		x := h
-		for i := depth - 1; i >= 0; i-- {
-			idx[i] = x % n
-			x /= n
+		if explicit != nil {
+			specs = explicit[h]
+			depth = len(specs)
+		} else {
+			x := h
+			for i := depth - 1; i >= 0; i-- {
+				idx[i] = x % n
+				x /= n
+			}
+			for i := range idx {
+				specs[i] = set[idx[i]]
+			}
 		}
-		for i := range idx {
-			specs[i] = set[idx[i]]
-		}
-		for _, sch := range schedules {
+		for _, sch := range scheds {
 			if depth == 1 && sch != "immediate" {
 				continue
 			}
@@ -186,6 +197,11 @@ func reexecCase(s Spec, adv string, k int) (mm []Mismatch, events int) {
 		if got != want {
 			mm = append(mm, Mismatch{Mode: "reexec", Specs: []Spec{s}, Adv: adv, K: k, Event: i, Got: got, Want: want})
 		}
+		if strings.HasPrefix(got, "ERR") {
+			// the reader never executes a plan again after an execution of it failed (Tail ends its loop,
+			// ComplexRequestProcessor and the services return the error): later executions are out of scope
+			break
+		}
 	}
 	return
 }
@@ -228,6 +244,8 @@ type job struct {
 	Adv      string            `json:"adv,omitempty"`
 	K        int               `json:"k,omitempty"`
 	BudgetS  float64           `json:"budget_s,omitempty"`
+	Scheds   []string          `json:"scheds,omitempty"` // schedules to run per history (default: all three)
+	Pairs    [][]Spec          `json:"pairs,omitempty"`  // explicit list of histories instead of the enumeration of Set^Depth
 	Start    int               `json:"start,omitempty"`
 	End      int               `json:"end,omitempty"`
 }
@@ -252,7 +270,7 @@ func workerMain(path string) {
 		p, o := planAndExec(j.Set[0], w0)
 		enc.Encode(map[string]any{"out": o, "types": plannerTypes(p)})
 	case "hist":
-		workerHist(j.Depth, j.Shard, j.NShards, j.Start, j.End, j.Set, j.Base, time.Now().Add(time.Duration(j.BudgetS*float64(time.Second))), w)
+		workerHist(j.Depth, j.Shard, j.NShards, j.Start, j.End, j.Set, j.Pairs, j.Scheds, j.Base, time.Now().Add(time.Duration(j.BudgetS*float64(time.Second))), w)
 	case "reexec":
 		workerReexec(j.Set, j.Shard, j.NShards, w)
 	case "one": // a single history in a fresh process
@@ -723,7 +741,9 @@ func main() {
 		return
 	}
 	if len(os.Args) > 1 && os.Args[1] == "--specs" { // debugging aid: print the query set
-		json.NewEncoder(os.Stdout).Encode(map[string]any{"all": allSpecs(), "core": coreSpecs()})
+		pairs, uniq := neighbourPairs(allSpecs(), false)
+		tp, _ := neighbourPairs(allSpecs(), true)
+		json.NewEncoder(os.Stdout).Encode(map[string]any{"all": allSpecs(), "core": coreSpecs(), "pairs": len(pairs), "uniq": uniq, "thorough_pairs": len(tp)})
 		return
 	}
 	r := ev.Start("C14", "model_checking", 78*time.Second, 17*time.Minute)
@@ -880,14 +900,57 @@ func main() {
 
 	// ---- phase 2: histories
 	type level struct {
-		set   []Spec
-		depth int
-		name  string
+		set      []Spec
+		depth    int
+		name     string
+		explicit [][]Spec
 	}
-	levels := []level{{all, 1, "all"}, {all, 2, "all"}, {core, 3, "core"}}
+	// confusable neighbours: fresh-process reference of every neighbour (one process each), then every ordered
+	// pair (neighbour, spec), (spec, neighbour) [thorough: also neighbour x neighbour of one spec] as histories
+	nbPairs, nbUniq := neighbourPairs(all, r.Thorough())
+	{
+		var wg sync.WaitGroup
+		for _, s := range nbUniq {
+			wg.Add(1)
+			sem <- struct{}{}
+			go func(s Spec) {
+				defer wg.Done()
+				defer func() { <-sem }()
+				out, err := spawn(job{Mode: "fresh", Set: []Spec{s}})
+				if err != nil {
+					ev.Fatal("fresh worker: %v", err)
+				}
+				var x struct{ Out string }
+				if err := json.Unmarshal(out, &x); err != nil {
+					ev.Fatal("fresh worker output: %v %.200q", err, out)
+				}
+				mu.Lock()
+				base[s.Key()] = x.Out
+				r.AddEval(1)
+				r.TracesValidated++
+				mu.Unlock()
+			}(s)
+		}
+		wg.Wait()
+	}
+	nbErr := 0
+	for _, s := range nbUniq {
+		if o := base[s.Key()]; strings.HasPrefix(o, "ERR") || strings.HasPrefix(o, "PLANERR") {
+			nbErr++
+		}
+	}
+	r.Extra["neighbour_specs"] = map[string]int{"distinct": len(nbUniq), "rejected_by_planner": nbErr, "ordered_pairs": len(nbPairs)}
+	levels := []level{{all, 2, "neighbours", nbPairs}, {all, 1, "all", nil}, {all, 2, "all", nil}, {core, 3, "core", nil}}
 	if r.Thorough() {
-		levels = []level{{all, 1, "all"}, {all, 2, "all"}, {midSpecs(), 3, "mid40"}, {core, 4, "core"}}
+		levels = []level{{all, 2, "neighbours", nbPairs}, {all, 1, "all", nil}, {all, 2, "all", nil}, {midSpecs(), 3, "mid40", nil}, {core, 4, "core", nil}}
 	}
+	// quick runs two of the three plan/execute interleavings on the big levels (immediate, deferred); thorough all three
+	scheds := []string{"immediate", "deferred"}
+	if r.Thorough() {
+		scheds = schedules
+	}
+	r.Extra["schedules"] = scheds
+	curScheds = scheds
 	cov := map[string]any{}
 	histViolations := 0
 	const maxHistViolations = 4
@@ -921,7 +984,7 @@ func main() {
 						mu.Unlock()
 						return
 					}
-					out, err := spawn(job{Mode: "hist", Set: lv.set, Base: base, Depth: lv.depth, Shard: sh, NShards: nsh, Start: start,
+					out, err := spawn(job{Mode: "hist", Set: lv.set, Pairs: lv.explicit, Scheds: scheds, Base: base, Depth: lv.depth, Shard: sh, NShards: nsh, Start: start,
 						BudgetS: time.Until(r.Deadline).Seconds() - 8})
 					if err != nil {
 						ev.Fatal("history worker: %v", err)
@@ -938,7 +1001,7 @@ func main() {
 					mu.Unlock()
 					for _, m := range mm {
 						m.Level = lv.name
-						if confirmHistory(r, m, lv.set, base) {
+						if confirmHistory(r, m, lv.set, lv.explicit, base) {
 							mu.Lock()
 							histViolations++
 							mu.Unlock()
@@ -984,9 +1047,12 @@ func runAlone(specs []Spec, schedule string) []string {
 	return x.Outs
 }
 
+// curScheds: the schedules the history workers of this run execute per history (a replayed sequence must run the same).
+var curScheds []string
+
 // runSequence replays positions [from, to] of a shard in a fresh process and reports the mismatch (if any) at `to`.
-func runSequence(m Mismatch, set []Spec, base map[string]string, from int) *Mismatch {
-	out, err := spawn(job{Mode: "hist", Set: set, Base: base, Depth: m.Depth, Shard: m.Shard, NShards: m.NShards, Start: from, End: m.Pos + 1, BudgetS: 600})
+func runSequence(m Mismatch, set []Spec, explicit [][]Spec, base map[string]string, from int) *Mismatch {
+	out, err := spawn(job{Mode: "hist", Set: set, Pairs: explicit, Scheds: curScheds, Base: base, Depth: m.Depth, Shard: m.Shard, NShards: m.NShards, Start: from, End: m.Pos + 1, BudgetS: 600})
 	if err != nil {
 		ev.Fatal("sequence worker: %v", err)
 	}
@@ -1018,7 +1084,7 @@ func histClass(m Mismatch) (string, string) {
 //  3. if not even the whole prefix reproduces it: reported as nondeterministic with what is known.
 //
 // Returns true when a violation was reported (known findings do not count).
-func confirmHistory(r *ev.Run, m Mismatch, set []Spec, base map[string]string) bool {
+func confirmHistory(r *ev.Run, m Mismatch, set []Spec, explicit [][]Spec, base map[string]string) bool {
 	before := r.Violations()
 	qs := make([]string, len(m.Specs))
 	for i, s := range m.Specs {
@@ -1048,7 +1114,7 @@ func confirmHistory(r *ev.Run, m Mismatch, set []Spec, base map[string]string) b
 			if from < 0 {
 				from = 0
 			}
-			if x := runSequence(m, set, base, from); x != nil {
+			if x := runSequence(m, set, explicit, base, from); x != nil {
 				x.Level, x.SeqFrom = m.Level, from
 				c, w = histClass(*x)
 				r.Violate("leak_"+c, fmt.Sprintf("history %v (%s) renders different SQL for event %d when the %d preceding histories of the enumeration ran in the same process (not when run alone): %s", qs, x.Schedule, x.Event, m.Pos-from, w), *x)
@@ -1094,7 +1160,17 @@ func replay(r *ev.Run) {
 		}
 		r.AddEval(int64(m.K))
 	case "history":
+		curScheds = []string{"immediate", "deferred"}
+		if r.Thorough() {
+			curScheds = schedules
+		}
 		set := map[string][]Spec{"all": allSpecs(), "core": coreSpecs(), "mid40": midSpecs()}[m.Level]
+		var explicit [][]Spec
+		if m.Level == "neighbours" {
+			var uniq []Spec
+			explicit, uniq = neighbourPairs(allSpecs(), r.Thorough())
+			set = append(allSpecs(), uniq...)
+		}
 		if set == nil || m.SeqFrom == m.Pos || m.Depth == 0 {
 			set = m.Specs // the history alone: only its own specs need a fresh-process reference
 		}
@@ -1116,7 +1192,7 @@ func replay(r *ev.Run) {
 				c, w := histClass(m)
 				r.Violate(c, w, m)
 			}
-		} else if x := runSequence(m, set, base, m.SeqFrom); x != nil {
+		} else if x := runSequence(m, set, explicit, base, m.SeqFrom); x != nil {
 			c, w := histClass(*x)
 			r.Violate("leak_"+c, w, *x)
 		}
